@@ -396,6 +396,7 @@ package PVM
 //@   ensures heap: result3 == ExitContinue ==> result2.heapPointer == 2*65536 + uint64(Z(len(nth(d, 1)))) + uint64(P(len(nth(d, 2)))) + uint64(nth(d, 3))*4096
 //@   ensures stack: result3 == ExitContinue ==> result2.heapLimit == 4294967296 - 2*65536 - 16777216 - uint64(P(int(nth(d, 4))))
 //@   ensures pages: result3 == ExitContinue ==> result2.Pages != nil
+//@   ensures codelen: len(result0) <= len(p)
 //@   assigns everything
 
 // ---- transfer (host call 20): gas (C04), token conservation (C08), error discipline (C07) ----
